@@ -19,7 +19,7 @@ EXPLANATION = (
     "application is driven through the real AppRunner.setup()+cleanup() or through the real web._run_app (sites stubbed, "
     "the serve-forever sleep cancelled by the script). The event log written by the callbacks is checked: a context's "
     "teardown ran exactly once iff its setup completed, in reverse order of setup. Shutdown: two in-memory connections "
-    "in solver-chosen phases (idle keep-alive, request being handled with a solver-chosen handler duration, request "
+    "in solver-chosen phases (idle keep-alive, request being handled with a solver-chosen handler duration - the first request of its connection or one that follows a completed request -, request "
     "arriving after shutdown began) and a solver-chosen shutdown_timeout under virtual time: no request accepted after "
     "shutdown began, idle connections closed at once, running handlers finish within the timeout or are cancelled, "
     "every transport closed when cleanup returns.")
@@ -210,13 +210,17 @@ def shutdown(ctx, timeout_choices=(1, 5)):
     tmo = ctx.pick("shutdown_timeout", list(timeout_choices))
     late = ctx.flag("late_request_on_idle_conn")
     hook_wait = ctx.pick("on_shutdown_seconds", [0, 1])
+    # the in-flight request is the first one on its connection, or follows a completed one (keep-alive reuse)
+    b_reused = ctx.flag("in_flight_request_on_reused_connection")
     shutdown_began = []
 
     async def handler(request):
         log.append(("handler-start", request.path, loop.time()))
         try:
-            if dur:
+            if dur and request.path == "/b":
                 await asyncio.sleep(dur)
+            if request.path == "/b":
+                await request.read()  # the handler looks at its (already delivered) body late
         except asyncio.CancelledError:
             log.append(("handler-cancelled", request.path, loop.time()))
             raise
@@ -224,7 +228,7 @@ def shutdown(ctx, timeout_choices=(1, 5)):
         return web.Response(text="ok")
 
     app = web.Application()
-    app.router.add_get("/{p}", handler)
+    app.router.add_route("*", "/{p}", handler)
 
     async def on_shutdown(app):
         if hook_wait:
@@ -244,9 +248,11 @@ def shutdown(ctx, timeout_choices=(1, 5)):
     (pa, ta), (pb, tb) = conns
     # A: one complete exchange, then idle keep-alive
     pa.data_received(b"GET /a HTTP/1.1\r\nHost: x\r\n\r\n")
-    loop.advance(dur + 1)
+    if b_reused:
+        pb.data_received(b"GET /b0 HTTP/1.1\r\nHost: x\r\n\r\n")
+    loop.advance(1)
     # B: request in flight when shutdown begins
-    pb.data_received(b"GET /b HTTP/1.1\r\nHost: x\r\n\r\n")
+    pb.data_received(b"POST /b HTTP/1.1\r\nHost: x\r\nContent-Length: 4\r\n\r\nbody")
     loop.run_ready()
     t0 = loop.time()
     ct = asyncio.Task(runner.cleanup(), loop=loop)
@@ -279,12 +285,14 @@ def shutdown(ctx, timeout_choices=(1, 5)):
         return False, tag, {"key": "handler-neither-finished-nor-cancelled"}
     kind, _p, when = b_end[0]
     if kind == "handler-end":
-        # allowed to complete during the shutdown timeout (measured from the end of the on_shutdown hooks)
-        pass
+        # allowed to complete during the shutdown timeout (measured from the end of the on_shutdown hooks),
+        # and then its response is delivered
+        if bytes(tb.out).count(b"HTTP/1.1 200") < (2 if b_reused else 1):
+            return False, tag, {"key": "response-of-completed-handler-not-delivered", "reused": b_reused}
     elif when - t0 > 2 * tmo + hook_wait + 1.5:
         return False, tag, {"key": "handler-cancelled-later-than-twice-the-timeout", "when": when - t0}
     if kind == "handler-cancelled" and dur <= tmo - 1 - hook_wait and dur < tmo:
-        return False, tag, {"key": "handler-cancelled-within-shutdown-timeout", "dur": dur, "tmo": tmo}
+        return False, tag, {"key": "handler-cancelled-within-shutdown-timeout", "dur": dur, "tmo": tmo, "reused": b_reused}
     if t_end - t0 > 2 * tmo + hook_wait + 2:
         return False, tag, {"key": "cleanup-takes-longer-than-twice-the-timeout", "took": t_end - t0}
     return True, tag + ":" + kind, None
